@@ -200,8 +200,11 @@ func explodeNode(node *CandidateNode, context Context) error {
 			node.AddChildren(node.Alias.Content)
 			node.Value = node.Alias.Value
 			node.Alias = nil
+			log.Debug("now I'm %v", NodeToString(node))
+			// what the alias pointed at may itself hold aliases and merge keys that
+			// have not been exploded yet (the anchor can live outside the exploded subtree)
+			return explodeNode(node, context)
 		}
-		log.Debug("now I'm %v", NodeToString(node))
 		return nil
 	case MappingNode:
 		// //check the map has an alias in it
